@@ -698,3 +698,149 @@ func digitLoopOrder(P *Program, fn *ssa.Function, isDecimal func(ssa.Value) bool
 	}
 	return "", deflt
 }
+
+// c12R7: the renderers print the numbers of a list of links only when the
+// error stored next to it is nil (`supplement` shows "failed to load
+// attachments", `center` the problem of the body), but `SelectLink` looks at
+// the lists alone. Both agree as long as a list that comes with an error is
+// empty: for every store of result #i of a call into a slice-typed field of
+// Post / Actor that has an error sibling filled from the same call, every
+// return of the callee whose error may be non-nil returns nil or an empty
+// slice at #i (seeds C12-1r7 / C07-2r7: `getLinks` handed out the links
+// converted so far, or a nil-padded slice, next to its error).
+func c12R7(c *Ctx) {
+	P := c.P
+	var emptyList func(v ssa.Value, d int) bool
+	emptyList = func(v ssa.Value, d int) bool {
+		v = unwrapLoad(v)
+		if isNilConst(v) {
+			return true
+		}
+		switch x := v.(type) {
+		case *ssa.MakeSlice:
+			k, ok := constInt(x.Len)
+			return ok && k == 0
+		case *ssa.Slice:
+			if al, ok := x.X.(*ssa.Alloc); ok {
+				if arr, ok := deref(al.Type()).Underlying().(*types.Array); ok {
+					return arr.Len() == 0
+				}
+			}
+		case *ssa.Phi:
+			if d > 3 {
+				return false
+			}
+			for _, e := range x.Edges {
+				if !emptyList(e, d+1) {
+					return false
+				}
+			}
+			return true
+		}
+		return false
+	}
+	var producerOK func(fn *ssa.Function, idx int, d int) (bool, string)
+	producerOK = func(fn *ssa.Function, idx int, d int) (bool, string) {
+		if d > 5 || len(fn.Blocks) == 0 {
+			return false, "producer " + FuncName(fn) + " cannot be followed"
+		}
+		nres := fn.Signature.Results().Len()
+		for _, b := range fn.Blocks {
+			ret, ok := b.Instrs[len(b.Instrs)-1].(*ssa.Return)
+			if !ok || len(ret.Results) != nres || idx >= nres {
+				continue
+			}
+			errV := ret.Results[nres-1]
+			if isNilConst(errV) || knownNil(errV, b) {
+				continue
+			}
+			v := ret.Results[idx]
+			if emptyList(v, 0) {
+				continue
+			}
+			// handed on from another producer, error and all
+			if ex, ok := v.(*ssa.Extract); ok {
+				if call, ok := ex.Tuple.(*ssa.Call); ok {
+					if ee, ok := errV.(*ssa.Extract); ok && ee.Tuple == ex.Tuple {
+						// statically, or through a table of constructors: every possible callee
+						callees := P.Callees(call)
+						okAll, why := len(callees) > 0, "the producer called at "+P.InstrPos(call)+" is unknown"
+						for _, callee := range callees {
+							if !P.IsServitorFunc(callee) {
+								okAll, why = false, "the producer "+FuncName(callee)+" is not part of the module"
+								break
+							}
+							if ok2, w := producerOK(callee, ex.Index, d+1); !ok2 {
+								okAll, why = false, w
+								break
+							}
+						}
+						if okAll {
+							continue
+						}
+						return false, why
+					}
+				}
+			}
+			return false, FuncName(fn) + " returns a list that is not known to be empty together with an error at " + P.InstrPos(ret)
+		}
+		return true, ""
+	}
+	for _, tn := range []string{"Post", "Actor"} {
+		owner := P.NamedType("servitor/pub", tn)
+		for _, fn := range P.FuncsIn("servitor/pub") {
+			eachInstr(fn, func(b *ssa.BasicBlock, _ int, in ssa.Instruction) {
+				st, ok := in.(*ssa.Store)
+				if !ok {
+					return
+				}
+				fa, ok := st.Addr.(*ssa.FieldAddr)
+				if !ok || structOwner(fa) != owner {
+					return
+				}
+				f := fieldOf(fa)
+				if _, isSlice := f.Type().Underlying().(*types.Slice); !isSlice {
+					return
+				}
+				ef := errSibling(f, owner)
+				if ef == nil {
+					return
+				}
+				ex, ok := st.Val.(*ssa.Extract)
+				if !ok {
+					return
+				}
+				call, ok := ex.Tuple.(*ssa.Call)
+				if !ok {
+					return
+				}
+				// the error of the same call goes into the sibling
+				paired := false
+				for _, in2 := range b.Instrs {
+					if st2, ok := in2.(*ssa.Store); ok {
+						if fa2, ok := st2.Addr.(*ssa.FieldAddr); ok && fieldOf(fa2) == ef {
+							if ex2, ok := st2.Val.(*ssa.Extract); ok && ex2.Tuple == ex.Tuple {
+								paired = true
+							}
+						}
+					}
+				}
+				if !paired {
+					return
+				}
+				okAll, why := true, ""
+				for _, callee := range P.Callees(call) {
+					if !P.IsServitorFunc(callee) {
+						okAll, why = false, "the producer "+FuncName(callee)+" is not part of the module"
+						continue
+					}
+					if ok2, w := producerOK(callee, ex.Index, 0); !ok2 {
+						okAll, why = false, w
+					}
+				}
+				c.check(okAll, FuncName(fn)+"/list-with-error:"+tn+"."+f.Name(), P.InstrPos(in), FuncName(fn),
+					"("+f.Name()+", "+ef.Name()+"): the list is empty whenever the error is set", "("+f.Name()+", "+ef.Name()+"): "+why+" — the renderer shows no numbers for this list when the error is set, but SelectLink selects from it")
+			})
+		}
+	}
+}
